@@ -6,8 +6,8 @@ confirmed ones as /verif/seeded/<PROP>-<n>/{patch.diff, demo.py, meta.json}.  Th
 import json, os, re, shutil, subprocess, sys
 V = os.path.dirname(os.path.dirname(os.path.abspath(__file__)))
 area = sys.argv[1]
-rnd = 3
-src = '/tmp/mut3_%s_out' % area
+rnd = int(os.environ.get('MUT_ROUND', '3'))          # 3: cross-cutting areas, 4: lenses
+src = '/tmp/mut%d_%s_out' % (rnd, area)
 SUITE = ['/venv/bin/python', '-m', 'pytest', '-ra', '-q', '-p', 'no:cacheprovider', '--timeout=900', '--continue-on-collection-errors']
 
 
